@@ -93,7 +93,7 @@ def _policy_stage(d, run, what):
     wd = run.workdir
     cfgs = [("MC_Policy.cfg", "MC_Policy (4 keys, sample 2, costs 1..3, max {2,4}, est {0,1}, <= 5 ops)")]
     if _thorough(run):
-        cfgs.append(("MC_Policy_deep.cfg", "MC_Policy_deep (5 keys, sample 3, costs 0..3, max {3,5}, est 0..2, <= 5 ops)"))
+        cfgs.append(("MC_Policy_deep.cfg", "MC_Policy_deep (4 keys, sample 3, costs 0..3, max {3,5}, est 0..2, <= 4 ops)"))
     for cfg, name in cfgs:
         r = d.tlc_mc("MC_Policy.tla", cfg, wd, workers=10, timeout=3000)
         run.add_mc(r, name)
@@ -120,7 +120,7 @@ def c07(d, run):
                 "branch counts in policy_branch_coverage")
     run.samples = d.sample_lines(trace, 2, lambda j: j.get("ev") == "add" and len(j.get("rounds", [])) >= 2)
     for k in ("evicted", "rejected", "multi_victim", "reject_after_evict", "ties", "small_sample", "over_budget_before_add"):
-        if cov.get(k, 0) == 0:
+        if cov.get(k, 0) == 0 and not run.violations:
             raise d.ToolError("vacuous run: branch %s never crossed" % k)
     run.assumptions = ["popularity is abstract in Policy.tla; traces carry the estimates the code actually used (hook H5)",
                        "the sample is a bag: duplicates and stale duplicates of earlier victims are modelled as the code produces them"]
@@ -244,14 +244,14 @@ FREE_INV = {"FUsedIsSum": ["C01"], "FAgree": ["C06"], "FLen": ["C06"], "FIndexEx
             "FConservation": ["C08"], "FNeverTwice": ["C08"], "FMetrics": ["C17"], "FWorkersGone": ["C12"], "FOpsComplete": ["C12", "C20"]}
 
 
-def free_stage(d, run, what, combos):
+def free_stage(d, run, what, combos, est=False):
     """FREE-RUNNING runs: the real background loops (select! + ticker / async tasks + timer on several executors),
     quiescent snapshots checked by Free_Trace.tla against the state predicates of Cache.tla."""
     wd = run.workdir
     for (flavor, ex, nq, nt) in combos:
         n = nt if _thorough(run) else nq
         trace = os.path.join(wd, "free-%s-%s.ndjson" % (flavor, ex))
-        info = d.vh(["free", "--flavor", flavor, "--exec", ex, "--n", n, "--seed", run.seed, "--out", trace], timeout=1800)
+        info = d.vh(["free", "--flavor", flavor, "--exec", ex, "--n", n, "--seed", run.seed, "--out", trace] + (["--est"] if est else []), timeout=1800)
         r = d.validate_trace("Free_Trace.tla", "Free_Trace.cfg", trace, wd)
         if r["status"] == "accepted":
             run.transitions += r["states"]
@@ -271,6 +271,9 @@ def free_stage(d, run, what, combos):
 
 
 def _need(d, hist, names):
+    # vacuity guard -- only meaningful when nothing was found (a deviation can make a branch unreachable)
+    if getattr(d, "_current_run", None) is not None and d._current_run.violations:
+        return
     for n in names:
         if hist.get(n, 0) == 0:
             raise d.ToolError("vacuous run: no %s event recorded" % n)
@@ -374,7 +377,7 @@ def c12(d, run):
 def c17(d, run):
     h = cache_stage(d, run, "real cache deviates from Cache.tla (metrics)",
                     ["seq", "conc"],
-                    [("seq", "sync", 25, 150), ("conc", "sync", 25, 200), ("seq_internal", "sync", 10, 60), ("ttl", "sync", 10, 60)],
+                    [("seq", "sync", 20, 150), ("conc", "sync", 20, 200), ("evict", "sync", 20, 150), ("seq_internal", "sync", 10, 60), ("ttl", "sync", 10, 60)],
                     ["met", "costs", "chan", "store"], ["MetricsLaws", "MetricsCounts", "UsedIsSum"])
     _need(d, h, ["Get", "PNewAdd", "PUpd", "PVictim", "ClrMetrics"])
     run.nontrivial = h.get("End", 0) + h.get("PWait", 0)
@@ -470,7 +473,8 @@ def c11(d, run):
 def c16(d, run):
     h = cache_stage(d, run, "real cache deviates from Cache.tla (charged cost formula)",
                     ["seq"],
-                    [("seq_internal", "sync", 25, 200), ("seq", "sync", 15, 100), ("seq_coster0", "sync", 10, 60), ("seq_internal", "async", 10, 60)],
+                    [("seq_internal", "sync", 25, 200), ("seq", "sync", 15, 100), ("seq_coster0", "sync", 10, 60), ("ttl", "sync", 10, 60),
+                     ("evict", "sync", 10, 80), ("seq_internal", "async", 10, 60)],
                     ["costs", "cbs", "chan", "store"], ["UsedIsSum", "Agree", "ChargeFormula"])
     _need(d, h, ["PNewAdd", "PUpd", "PVictim"])
     run.nontrivial = h.get("PNewAdd", 0) + h.get("PUpd", 0)
@@ -527,6 +531,8 @@ def c15(d, run):
         if not run.samples:
             run.samples = [{k: v for k, v in s.items() if k != "post"} if isinstance(s, dict) else s
                            for s in d.sample_lines(trace, 3, lambda j: j.get("ev") in ("Get", "LRecv"))]
+    free_stage(d, run, "lookups kept by the policy queue are not reflected by the estimator (real worker racing the real processor)",
+               [("sync", "thread", 4, 16), ("async", "thread", 4, 16)], est=True)
     _need(d, hist, ["Get", "GetMut", "LRecv", "ClsPolFlag"])
     run.notes["event_histogram"] = hist
     run.nontrivial = hist.get("Get", 0) + hist.get("GetMut", 0) + hist.get("LRecv", 0)
@@ -661,11 +667,27 @@ CHECKS = {
 
 
 def replay(d, pid, path):
-    """Re-validate a saved replay (the recorded events of the offending instance)."""
-    spec = {"C13": ("Sketch_Trace.tla", "Sketch_Trace.cfg"), "C14": ("Bloom_Trace.tla", "Bloom_Trace.cfg"),
-            "C07": ("Policy_Trace.tla", "Policy_Trace.cfg"), "C01": ("Policy_Trace.tla", "Policy_Trace.cfg")}.get(pid)
-    if spec is None:
-        d.log("no replay procedure for %s" % pid)
+    """Re-validate a saved replay: the recorded events of the offending instance (from its first event to the event the
+    specification could not explain / the state that violated an invariant)."""
+    comp = {"C13": ("Sketch_Trace.tla", "Sketch_Trace.cfg"), "C14": ("Bloom_Trace.tla", "Bloom_Trace.cfg"),
+            "C07": ("Policy_Trace.tla", "Policy_Trace.cfg")}
+    first = ""
+    try:
+        first = json.loads(open(path).readline()).get("ev", "")
+    except Exception:
+        pass
+    if first == "FInit":
+        spec = ("Free_Trace.tla", "Free_Trace.cfg")
+    elif first == "Init" or first == "Finalize":
+        spec = ("Ring_Trace.tla", "Ring_Trace.cfg") if pid == "C15" else ("Cache_Trace.tla", "Cache_Trace.cfg")
+    elif first == "new" and pid in comp:
+        spec = comp[pid]
+    elif first == "new" and pid == "C01":
+        spec = ("Policy_Trace.tla", "Policy_Trace.cfg")
+    elif first == "new" and pid == "C18":
+        spec = ("KeyHash_Trace.tla", "KeyHash_Trace.cfg")
+    else:
+        d.log("replay %s is not a recorded trace (TLC output of a specification-level violation?): see the file" % path)
         return 2
     r = d.validate_trace(spec[0], spec[1], path, os.path.join(d.WORK, "replay"))
     d.log(json.dumps({k: v for k, v in r.items() if k != "instance_lines"})[:2000])
